@@ -108,6 +108,32 @@ type Ctx struct {
 	// CurFile: a worker writes the input of the case it is about to run here, so
 	// that a process-fatal crash can be attributed to its input by the parent.
 	CurFile string
+	// Lo/Hi restrict the case range (Hi==0: [0,N)); used to combine two case families in one check.
+	Lo, Hi int
+}
+
+func (c *Ctx) hi() int {
+	if c.Hi > 0 {
+		return c.Hi
+	}
+	return c.N
+}
+
+// sub returns a copy restricted to cases [lo,hi).
+func (c *Ctx) sub(lo, hi int) *Ctx {
+	d := *c
+	d.Lo, d.Hi = lo, hi
+	return &d
+}
+
+// both runs family a on cases [0,na) and family b on [na,na+nb).
+func both(a func(*Ctx) *Result, na func(string) int, b func(*Ctx) *Result) func(*Ctx) *Result {
+	return func(ctx *Ctx) *Result {
+		n := na(ctx.Tier)
+		r := a(ctx.sub(0, n))
+		r.merge(b(ctx.sub(n, ctx.N)))
+		return r
+	}
 }
 
 func (c *Ctx) mine(i int) bool {
